@@ -144,4 +144,711 @@ theorem ra_set_inuse_pair {h h1 h2 : Heap} {pre post : List Ent} {x y : Ent} {nb
   rw [r2]
   simp
 
+/-- the same two headers written in the order `memalign` uses for the leader: the second header first
+(strictly inside `x`, on a word that holds no header: PINUSE reads as clear), then the first one, whose
+`orPin` sets the PINUSE bit of the second -/
+theorem ra_set_inuse_pair_rev {h h1 h2 : Heap} {pre post : List Ent} {x y : Ent} {nb rs : Nat}
+    (e1 : set_inuse h (x.addr + nb) rs = .ok h1) (e2 : set_inuse h1 x.addr nb = .ok h2)
+    (hes : h.ents = pre ++ x :: y :: post) (hok : entsOk h.ents = true)
+    (hnb : 0 < nb) (hrs : 0 < rs) (hsz : x.size = nb + rs) (hya : y.addr = x.addr + x.size) :
+    h2 = { h with ents := pre ++ [{ addr := x.addr, size := nb, cin := true, pin := x.pin, pfoot := x.pfoot },
+      { addr := x.addr + nb, size := rs, cin := true, pin := true, pfoot := 0 }, { y with pin := true }] ++ post } := by
+  have hok2 : entsOk (pre ++ x :: y :: post) = true := by rw [hes] at hok; exact hok
+  obtain ⟨o1, o2, o3, o4, o5⟩ := entsOk_mid2 hok2
+  have hxm : x ∈ h.ents := by rw [hes]; simp
+  have hfn : findEnt h.ents (x.addr + nb) = none :=
+    findEnt_none (entsOk_no_inside hok hxm (by omega) (by omega))
+  -- first call: the second header, strictly inside `x`; `orPin` on `y`
+  have r1 := ra_set_inuse_w e1 (pre := pre ++ [x]) (ms := []) (post := y :: post) (by rw [hes]; simp)
+    (by
+      intro q hq
+      rcases List.mem_append.1 hq with hq | hq
+      · have := o1 q hq; omega
+      · simp only [List.mem_singleton] at hq; subst hq; omega)
+    (by simp)
+    (by
+      intro q hq
+      cases hq with
+      | head => omega
+      | tail _ hq => have := o5 q hq; omega)
+  rw [ra_pinAt_none hfn, pfootAt_none hfn] at r1
+  rw [show x.addr + nb + rs = y.addr by omega] at r1
+  rw [orPin_at (pre := pre ++ [x, { addr := x.addr + nb, size := rs, cin := true, pin := false, pfoot := 0 }])
+    (x := y) (post := post) (by simp)
+    (by
+      intro q hq
+      simp only [List.mem_append, List.mem_cons, List.not_mem_nil, or_false] at hq
+      rcases hq with hq | hq | hq
+      · have := o1 q hq; omega
+      · subst hq; omega
+      · subst hq; simp only; omega)] at r1
+  subst r1
+  -- second call: the first header over `x`; `orPin` on the second header
+  have hfx : findEnt (pre ++ [x, { addr := x.addr + nb, size := rs, cin := true, pin := false, pfoot := 0 }] ++
+      { y with pin := true } :: post) x.addr = some x := by
+    rw [List.append_assoc, ra_findEnt_pre (fun q hq => (o1 q hq).2)]
+    exact findEnt_head
+  have r2 := ra_set_inuse_w e2 (pre := pre) (ms := [x])
+    (post := { addr := x.addr + nb, size := rs, cin := true, pin := false, pfoot := 0 } :: { y with pin := true } :: post)
+    (by simp)
+    (by intro q hq; exact (o1 q hq).2)
+    (by intro q hq; simp only [List.mem_singleton] at hq; subst hq; omega)
+    (by
+      intro q hq
+      simp only [List.mem_cons] at hq
+      rcases hq with hq | hq | hq
+      · subst hq; simp only; omega
+      · subst hq; simp only; omega
+      · have := o5 q hq; omega)
+  dsimp only at r2
+  rw [ra_pinAt_some hfx, pfootAt_some hfx] at r2
+  have r3 := orPin_at (h := { h with ents := pre ++ { addr := x.addr, size := nb, cin := true, pin := x.pin, pfoot := x.pfoot } ::
+      { addr := x.addr + nb, size := rs, cin := true, pin := false, pfoot := 0 } :: { y with pin := true } :: post })
+    (pre := pre ++ [{ addr := x.addr, size := nb, cin := true, pin := x.pin, pfoot := x.pfoot }])
+    (x := { addr := x.addr + nb, size := rs, cin := true, pin := false, pfoot := 0 }) (post := { y with pin := true } :: post)
+    (by simp)
+    (by
+      intro q hq
+      simp only [List.mem_append, List.mem_cons, List.not_mem_nil, or_false] at hq
+      rcases hq with hq | hq
+      · have := o1 q hq; simp only; omega
+      · subst hq; simp only; omega)
+  dsimp only at r3
+  rw [r3] at r2
+  rw [r2]
+  simp
+
+/-! ## B. a user chunk in the table; states that differ in ghost fields only -/
+
+/-- what `User s p z` says about the table: the header `e` at `p`, in use, no fencepost, no record, and
+the header `y` right after it (whose PINUSE bit is set) -/
+structure ra_UserAt (s : St) (p z : Nat) (pre post : List Ent) (e y : Ent) (g : Seg) : Prop where
+  hes : s.h.ents = pre ++ e :: y :: post
+  ea : e.addr = p
+  es : e.size = z
+  ec : e.cin = true
+  er : isRecord s.segs e = false
+  z8 : z ≠ 8
+  p16 : p % 16 = 0
+  z16 : z % 16 = 0
+  zge : 16 ≤ z
+  hg : g ∈ s.segs
+  ge : inSeg g e = true
+  gy : inSeg g y = true
+  ya : y.addr = p + z
+  yp : y.pin = true
+
+theorem ra_user_parts {s : St} (w : WFS s) {p z : Nat} (hu : User s p z) :
+    ∃ pre post e y g, ra_UserAt s p z pre post e y g := by
+  obtain ⟨e, he, hc, hz, h8, hr⟩ := hu
+  obtain ⟨hm, ha⟩ := findEnt_some he
+  obtain ⟨pre, post, hes⟩ := List.append_of_mem hm
+  obtain ⟨g, hg, hge⟩ := w.struct.seg_of hm
+  have hnt : isTrailerEnd e = false := by
+    simp only [isTrailerEnd, hc, Bool.not_true, Bool.false_and, Bool.false_or, decide_eq_false_iff_not]
+    omega
+  obtain ⟨y, post', hp, hya, hgy, hl⟩ := next_entry w.struct hes hg hge hnt
+  subst hp
+  have hyp : y.pin = true := by
+    simp only [linkOk, Bool.and_eq_true, beq_iff_eq] at hl
+    rw [hl.1, hc]
+  have hsh : e.addr % 16 = 0 ∧ e.size % 16 = 0 ∧ 16 ≤ e.size := by
+    rcases shapeOk_mem w.shape hm with h | h
+    · omega
+    · exact h
+  exact ⟨pre, post', e, y, g, hes, ha, hz, hc, hr, h8, by omega, by omega, by omega, hg, hge, hgy, by omega, hyp⟩
+
+theorem ra_UserAt.mem_e {s : St} {p z : Nat} {pre post : List Ent} {e y : Ent} {g : Seg}
+    (u : ra_UserAt s p z pre post e y g) : e ∈ s.h.ents := by rw [u.hes]; simp
+
+theorem ra_UserAt.mem_y {s : St} {p z : Nat} {pre post : List Ent} {e y : Ent} {g : Seg}
+    (u : ra_UserAt s p z pre post e y g) : y ∈ s.h.ents := by rw [u.hes]; simp
+
+theorem ra_UserAt.find {s : St} (w : WFS s) {p z : Nat} {pre post : List Ent} {e y : Ent} {g : Seg}
+    (u : ra_UserAt s p z pre post e y g) : findEnt s.h.ents p = some e := by
+  rw [← u.ea]; exact entsOk_find e u.mem_e w.ents
+
+/-- the user chunk is not `top` -/
+theorem ra_UserAt.ne_top {s : St} (w : WFS s) {p z : Nat} {pre post : List Ent} {e y : Ent} {g : Seg}
+    (u : ra_UserAt s p z pre post e y g) : p ≠ s.h.top := by
+  intro heq
+  obtain ⟨_, _, _, xt, _, _, _, htes, hxta, hxtf, _⟩ := w.top_parts (w.topsize_ne u.hg)
+  have hxtm : xt ∈ s.h.ents := by rw [htes]; simp
+  have := entsOk_addr_inj w.ents u.mem_e hxtm (by rw [u.ea, hxta, heq])
+  subst this
+  have := u.ec
+  rw [(isFree_iff.1 hxtf).1] at this
+  cases this
+
+/-- no segment record points into the middle of a chunk -/
+theorem ra_not_record_inside {s : St} (w : WFS s) (hr : RecsOk s) {x : Ent} (hx : x ∈ s.h.ents) {a : Nat}
+    (h1 : x.addr < a) (h2 : a < x.addr + x.size) (e' : Ent) (he' : e'.addr = a) : isRecord s.segs e' = false := by
+  cases hrec : isRecord s.segs e' with
+  | false => rfl
+  | true =>
+    exfalso
+    obtain ⟨g, hg, hga⟩ := gl_isRecord_iff.1 hrec
+    obtain ⟨_, e, he, _⟩ := hr g hg (by omega)
+    rw [hga, he', show a + 16 - 16 = a by omega] at he
+    exact entsOk_no_inside w.ents hx h1 h2 e (findEnt_some he).1 (findEnt_some he).2
+
+/-- no user chunk starts in the middle of a chunk -/
+theorem ra_no_user_inside {s : St} (w : WFS s) {x : Ent} (hx : x ∈ s.h.ents) {a : Nat}
+    (h1 : x.addr < a) (h2 : a < x.addr + x.size) : ∀ z, ¬ User s a z := by
+  rintro z ⟨e, he, _⟩
+  exact entsOk_no_inside w.ents hx h1 h2 e (findEnt_some he).1 (findEnt_some he).2
+
+/-- `SInv` and `User` do not look at the ghost trace -/
+theorem ra_sinv_same {s : St} (hi : SInv s) {H : Heap} (hh : SameHeap H s.h) : SInv { s with h := H } := by
+  have hents : H.ents = s.h.ents := hh.1
+  refine ⟨hi.wfs.of_same hh rfl rfl rfl, ?_, ?_, ?_, ?_⟩
+  · intro g hg hne
+    show _ ∧ ∃ e, findEnt H.ents _ = _ ∧ _
+    rw [hents]
+    exact hi.recs g hg hne
+  · intro pre x y post hes h8 ha
+    have hes' : s.h.ents = pre ++ x :: y :: post := by rw [← hents]; exact hes
+    exact hi.fence pre x y post hes' h8 ha
+  · intro g hg hne e he hin
+    have he' : e ∈ s.h.ents := by rw [← hents]; exact he
+    exact hi.tail g hg hne e he' hin
+  · intro g hg e he hb
+    have he' : e ∈ s.h.ents := by rw [← hents]; exact he
+    exact hi.head g hg e he' hb
+
+theorem ra_user_same {s : St} {H : Heap} (hh : H.ents = s.h.ents) (a z : Nat) :
+    User { s with h := H } a z ↔ User s a z := by
+  unfold User
+  show (∃ e, findEnt H.ents a = some e ∧ _) ↔ _
+  rw [hh]
+
+theorem ra_sameHeap_tag (h : Heap) (t : String) : SameHeap (h.tag t) h := ⟨rfl, rfl, rfl, rfl, rfl, rfl, rfl⟩
+
+/-- `HeapIs` names the fields of the heap itself -/
+theorem ra_heapIs_self (h : Heap) : HeapIs h h.ents h.sbins h.tbins h.dv h.dvsize h.top h.topsize :=
+  ⟨rfl, rfl, rfl, rfl, rfl, rfl, rfl⟩
+
+/-! ## C. window replacement among in-use headers; the split -/
+
+theorem ra_freeSet_nil {l : List Ent} (h : ∀ e ∈ l, e.cin = true) : freeSet l = [] := by
+  apply List.eq_nil_iff_forall_not_mem.2
+  intro a ha
+  obtain ⟨e, he, hf, _⟩ := mem_freeSet.1 ha
+  have := h e he
+  rw [(isFree_iff.1 hf).1] at this
+  cases this
+
+/-- headers outside the window are found unchanged in the new table -/
+theorem ra_find_outer {pre mid mid' post : List Ent} (hok' : entsOk (pre ++ mid' ++ post) = true) {x : Ent}
+    (hx : x ∈ pre ++ mid ++ post) (hn : x ∉ mid) : findEnt (pre ++ mid' ++ post) x.addr = some x := by
+  refine entsOk_find x ?_ hok'
+  simp only [List.mem_append] at hx ⊢
+  rcases hx with (h | h) | h
+  · exact Or.inl (Or.inl h)
+  · exact absurd h hn
+  · exact Or.inr h
+
+/-- a header of the new table outside the new window is a header of the old table -/
+theorem ra_mem_outer {pre mid mid' post : List Ent} {x : Ent} (hx : x ∈ pre ++ mid' ++ post) (hn : x ∉ mid') :
+    x ∈ pre ++ mid ++ post := by
+  simp only [List.mem_append] at hx ⊢
+  rcases hx with (h | h) | h
+  · exact Or.inl (Or.inl h)
+  · exact absurd h hn
+  · exact Or.inr h
+
+theorem ra_fencesOld_window {pre mid mid' post : List Ent}
+    (h8 : ∀ e ∈ mid', e.size = 8 → ∃ e0 ∈ mid, e0.addr = e.addr ∧ e0.size = 8) :
+    FencesOld (pre ++ mid ++ post) (pre ++ mid' ++ post) := by
+  intro y' hy' hy8
+  by_cases hm : y' ∈ mid'
+  · obtain ⟨e0, he0, h1, h2⟩ := h8 y' hm hy8
+    exact ⟨e0, by simp [he0], h1, h2⟩
+  · exact ⟨y', ra_mem_outer hy' hm, rfl, hy8⟩
+
+/-- **window replacement among in-use headers**: old and new window consist of in-use headers, nothing
+else of the heap changes -/
+theorem ra_wfs_inuse_window {s : St} (w : WFS s) {H : Heap} {pre mid mid' post : List Ent}
+    (hes : s.h.ents = pre ++ mid ++ post)
+    (hH : HeapIs H (pre ++ mid' ++ post) s.h.sbins s.h.tbins s.h.dv s.h.dvsize s.h.top s.h.topsize)
+    (hst : StructOk (pre ++ mid' ++ post) s.segs s.h.top) (hne : s.segs ≠ [])
+    (hmid : ∀ e ∈ mid, e.cin = true) (hmid' : ∀ e ∈ mid', e.cin = true) : WFS { s with h := H } := by
+  have hok' : entsOk H.ents = true := by rw [hH.ents]; exact hst.ents
+  have hnf : ∀ e ∈ mid, isFree e = true → False := by
+    intro e he hf
+    have := hmid e he
+    rw [(isFree_iff.1 hf).1] at this
+    cases this
+  have hfl : freeList H = freeList s.h := by
+    unfold freeList binned; rw [hH.top, hH.dv, hH.sbins, hH.tbins]
+  refine wfs_of_parts w (by rw [hH.ents, hH.top]; exact hst) ?_ ?_ ?_ ?_ ?_
+  · refine freeListOk_window hes hH.ents w.ents hok' w.freeList ?_ ?_
+    · rw [hfl]; exact ((freeListOk_iff s.h).1 w.freeList).1
+    · intro a
+      rw [hfl, ra_freeSet_nil hmid, ra_freeSet_nil hmid']
+      simp
+  · exact (bins_window w hes hH.ents hok' hH.sbins hH.tbins (fun e he hf => (hnf e he hf).elim)).1
+  · exact (bins_window w hes hH.ents hok' hH.sbins hH.tbins (fun e he hf => (hnf e he hf).elim)).2
+  · exact dvOk_window w hes hH.ents hok' hH.dv hH.dvsize (fun e he hf => (hnf e he hf).elim)
+  · exact topOk_window w hes hH.ents hok' hne hH.top hH.topsize
+      (fun e he => ⟨fun hf => (hnf e he hf).elim, Or.inl (hmid e he)⟩)
+
+/-- how the user chunks change in a split -/
+def ra_SplitU (s s' : St) (p nb rs : Nat) : Prop :=
+  (∀ z, ¬ User s (p + nb) z) ∧
+  ∀ a z, User s' a z ↔ ((a ≠ p ∧ User s a z) ∨ (a = p ∧ z = nb) ∨ (a = p + nb ∧ z = rs))
+
+/-- **the split**, on the final table: the user chunk `e` of `nb + rs` bytes became the two user chunks
+`np` (`nb` bytes) and `nr` (`rs` bytes) -/
+theorem ra_split_core {s : St} (hi : SInv s) {p nb rs : Nat} {pre post : List Ent} {e y : Ent} {g : Seg}
+    (u : ra_UserAt s p (nb + rs) pre post e y g)
+    (hnb16 : nb % 16 = 0) (hnb : 16 ≤ nb) (hrs16 : rs % 16 = 0) (hrs : 16 ≤ rs) {H : Heap}
+    (hH : HeapIs H (pre ++ [{ addr := p, size := nb, cin := true, pin := e.pin, pfoot := e.pfoot },
+      { addr := p + nb, size := rs, cin := true, pin := true, pfoot := 0 }, { y with pin := true }] ++ post)
+      s.h.sbins s.h.tbins s.h.dv s.h.dvsize s.h.top s.h.topsize) :
+    SInv { s with h := H } ∧ ra_SplitU s { s with h := H } p nb rs := by
+  have w := hi.wfs
+  have hu : User s p (nb + rs) := ⟨e, u.find w, u.ec, u.es, u.z8, u.er⟩
+  have hem := u.mem_e
+  have hea := u.ea
+  have hesz := u.es
+  have hes : s.h.ents = pre ++ [e] ++ (y :: post) := by rw [u.hes]; simp
+  generalize hnp : ({ addr := p, size := nb, cin := true, pin := e.pin, pfoot := e.pfoot } : Ent) = np at hH
+  generalize hnr : ({ addr := p + nb, size := rs, cin := true, pin := true, pfoot := 0 } : Ent) = nr at hH
+  have np1 : np.addr = p := by rw [← hnp]
+  have np2 : np.size = nb := by rw [← hnp]
+  have np3 : np.cin = true := by rw [← hnp]
+  have np4 : np.pin = e.pin := by rw [← hnp]
+  have np5 : np.pfoot = e.pfoot := by rw [← hnp]
+  have nr1 : nr.addr = p + nb := by rw [← hnr]
+  have nr2 : nr.size = rs := by rw [← hnr]
+  have nr3 : nr.cin = true := by rw [← hnr]
+  have nr4 : nr.pin = true := by rw [← hnr]
+  have hH' : HeapIs H (pre ++ [np, nr] ++ (y :: post)) s.h.sbins s.h.tbins s.h.dv s.h.dvsize s.h.top s.h.topsize := by
+    rw [ra_pin_true_eq u.yp] at hH
+    obtain ⟨h1, h2, h3, h4, h5, h6, h7⟩ := hH
+    exact ⟨by rw [h1]; simp, h2, h3, h4, h5, h6, h7⟩
+  clear hH
+  have hst0 : StructOk (pre ++ (e :: []) ++ (y :: post)) s.segs s.h.top := by
+    have := w.struct; rw [hes] at this; exact this
+  have hst : StructOk (pre ++ (np :: [nr]) ++ (y :: post)) s.segs s.h.top :=
+    struct_window hst0 w.segsDisjoint u.hg
+      (by intro x hx; simp only [List.mem_singleton] at hx; subst hx; exact u.ge)
+      (by simp only [contig, Bool.and_eq_true, decide_eq_true_eq, Bool.and_true]; omega)
+      (by simp only [endE, lastE]; omega)
+      (by
+        have := u.p16
+        simp only [shapeOk, List.all_cons, List.all_nil, Bool.and_true, Bool.and_eq_true, Bool.or_eq_true,
+          decide_eq_true_eq]
+        exact ⟨Or.inr ⟨⟨by omega, by omega⟩, by omega⟩, Or.inr ⟨⟨by omega, by omega⟩, by omega⟩⟩)
+      (by
+        intro h
+        have h8 := u.z8
+        simp only [lastE, isTrailerEnd, u.ec, Bool.not_true, Bool.false_and, Bool.false_or] at h
+        have := of_decide_eq_true h
+        omega)
+      (fun _ _ => Iff.rfl)
+      ⟨np4, fun _ => ⟨by rw [np3, u.ec], np5⟩⟩
+      ⟨by simp only [lastE]; rw [nr3, u.ec], fun hf => by simp [lastE, isFree, nr3] at hf⟩
+      (by simp [tagsFrom, linkOk, isFree, np3, nr4])
+  have hne : s.segs ≠ [] := fun h => by have := u.hg; rw [h] at this; cases this
+  have w' : WFS { s with h := H } := ra_wfs_inuse_window w hes hH' hst hne
+    (by intro x hx; simp only [List.mem_singleton] at hx; subst hx; exact u.ec)
+    (by
+      intro x hx
+      simp only [List.mem_cons, List.not_mem_nil, or_false] at hx
+      rcases hx with rfl | rfl
+      · exact np3
+      · exact nr3)
+  have hok' : entsOk (pre ++ [np, nr] ++ (y :: post)) = true := hst.ents
+  have hfnp : findEnt H.ents p = some np := by
+    rw [hH'.ents, ← np1]; exact entsOk_find np (by simp) hok'
+  have hfnr : findEnt H.ents (p + nb) = some nr := by
+    rw [hH'.ents, ← nr1]; exact entsOk_find nr (by simp) hok'
+  -- in-use headers other than `e` are kept
+  have hkept : ∀ x ∈ s.h.ents, x.cin = true → x.addr ≠ p →
+      ∃ x', findEnt H.ents x.addr = some x' ∧ x'.size = x.size ∧ x'.cin = true := by
+    intro x hx hc hne
+    refine ⟨x, ?_, rfl, hc⟩
+    rw [hH'.ents]
+    rw [hes] at hx
+    refine ra_find_outer hok' hx ?_
+    intro hm
+    simp only [List.mem_singleton] at hm
+    subst hm
+    exact hne hea
+  have hcin : ∀ a, a ∈ cinSet H.ents → a = p ∨ a = p + nb ∨ a ∈ cinSet s.h.ents := by
+    intro a ha
+    obtain ⟨x, hx, hc, hxa⟩ := mem_cinSet.1 ha
+    rw [hH'.ents] at hx
+    by_cases hm : x ∈ [np, nr]
+    · simp only [List.mem_cons, List.not_mem_nil, or_false] at hm
+      rcases hm with rfl | rfl
+      · exact Or.inl (by omega)
+      · exact Or.inr (Or.inl (by omega))
+    · refine Or.inr (Or.inr (mem_cinSet.2 ⟨x, ?_, hc, hxa⟩))
+      rw [hes]; exact ra_mem_outer hx hm
+  have hk : NonUserKept s H.ents := gl_nonUserKept_except (gl_user_except w.ents hu) hkept
+  have hfo : FencesOld s.h.ents H.ents := by
+    rw [hes, hH'.ents]
+    refine ra_fencesOld_window ?_
+    intro x hx h8
+    simp only [List.mem_cons, List.not_mem_nil, or_false] at hx
+    rcases hx with rfl | rfl <;> omega
+  have hins : ∀ z, ¬ User s (p + nb) z := ra_no_user_inside w hem (by omega) (by omega)
+  refine ⟨gl_sinv_of_kept hi w' hk hfo, hins, ?_⟩
+  intro a z
+  by_cases hap : a = p
+  · subst hap
+    have h1 : User { s with h := H } a z ↔ z = np.size :=
+      gl_user_at (s := { s with h := H }) hfnp np3 (by omega)
+        (by rw [gl_isRecord_addr (e := e) (by omega)]; exact u.er)
+    rw [h1, np2]
+    constructor
+    · intro h; exact Or.inr (Or.inl ⟨rfl, h⟩)
+    · rintro (⟨h, _⟩ | ⟨_, h⟩ | ⟨h, _⟩)
+      · exact absurd rfl h
+      · exact h
+      · omega
+  · by_cases har : a = p + nb
+    · subst har
+      have h1 : User { s with h := H } (p + nb) z ↔ z = nr.size :=
+        gl_user_at (s := { s with h := H }) hfnr nr3 (by omega)
+          (ra_not_record_inside w hi.recs hem (by omega) (by omega) nr nr1)
+      rw [h1, nr2]
+      constructor
+      · intro h; exact Or.inr (Or.inr ⟨rfl, h⟩)
+      · rintro (⟨_, h⟩ | ⟨h, _⟩ | ⟨_, h⟩)
+        · exact absurd h (hins z)
+        · omega
+        · exact h
+    · have h1 : User { s with h := H } a z ↔ User s a z := by
+        refine gl_user_frame w.ents ?_ ?_
+        · intro h
+          rcases hcin a h with h | h | h
+          · exact absurd h hap
+          · exact absurd h har
+          · exact h
+        · intro x hx hxa hc
+          obtain ⟨x', h1, h2, h3⟩ := hkept x hx hc (by omega)
+          exact ⟨x', hxa ▸ h1, h2, h3⟩
+      rw [h1]
+      constructor
+      · intro h; exact Or.inl ⟨hap, h⟩
+      · rintro (⟨_, h⟩ | ⟨h, _⟩ | ⟨h, _⟩)
+        · exact h
+        · exact absurd h hap
+        · exact absurd h har
+
+/-- **`split_inuse_Spec`**, with the additional fact that no user chunk started at `p + nb` before -/
+theorem ra_split_inuse {s : St} (hi : SInv s) {p nb rsize : Nat} {h1 h2 : Heap} (hu : User s p (nb + rsize))
+    (hnb16 : nb % 16 = 0) (hnb : 16 ≤ nb) (hrs16 : rsize % 16 = 0) (hrs : 16 ≤ rsize)
+    (e1 : set_inuse s.h p nb = .ok h1) (e2 : set_inuse h1 (p + nb) rsize = .ok h2) :
+    SInv { s with h := h2 } ∧ ra_SplitU s { s with h := h2 } p nb rsize := by
+  obtain ⟨pre, post, e, y, g, u⟩ := ra_user_parts hi.wfs hu
+  have hea := u.ea
+  subst hea
+  have r := ra_set_inuse_pair e1 e2 u.hes hi.wfs.ents (by omega) (by omega) u.es (by rw [u.ya, u.es])
+  exact ra_split_core hi u hnb16 hnb hrs16 hrs (by rw [r]; exact ⟨rfl, rfl, rfl, rfl, rfl, rfl, rfl⟩)
+
+theorem ra_split_inuse_spec : split_inuse_Spec := by
+  intro s hi p nb rsize h1 h2 hu hnb16 hnb hrs16 hrs e1 e2
+  obtain ⟨r1, _, r2⟩ := ra_split_inuse hi hu hnb16 (by omega) hrs16 (by omega) e1 e2
+  exact ⟨r1, r2⟩
+
+/-! ## D. growing in place: the neighbours of a user chunk -/
+
+/-- the header after a user chunk is `top`: then the foot word follows -/
+theorem ra_next_top {s : St} (w : WFS s) {p z : Nat} {pre post : List Ent} {e y : Ent} {g : Seg}
+    (u : ra_UserAt s p z pre post e y g) (ht : p + z = s.h.top) :
+    ∃ f post' rest, post = f :: post' ∧ s.segs = g :: rest ∧ isFree y = true ∧ y.size = s.h.topsize ∧
+      f.addr = s.h.top + s.h.topsize ∧ f.cin = false ∧ f.pin = false ∧ f.size = 80 ∧ inSeg g f = true ∧
+      g.base ≤ s.h.top ∧ s.h.top + s.h.topsize + 80 = g.base + g.size ∧ s.h.top ≠ 0 ∧ 0 < s.h.topsize := by
+  obtain ⟨g0, rest, tpre, xt, ft, tpost, hsegs, htes, hxta, hxtf, hxts, hfta, hftc, hftp, hfts, hgb, hge, ht0, hgx, hgf⟩ :=
+    w.top_parts (w.topsize_ne u.hg)
+  have hxtm : xt ∈ s.h.ents := by rw [htes]; simp
+  have hftm : ft ∈ s.h.ents := by rw [htes]; simp
+  have hyx : y = xt := entsOk_addr_inj w.ents u.mem_y hxtm (by rw [u.ya, hxta, ht])
+  subst hyx
+  have hg0 : g0 ∈ s.segs := by rw [hsegs]; exact List.mem_cons_self
+  have hgg : g0 = g := gl_seg_unique w.segsDisjoint hg0 u.hg hgx u.gy rfl
+  subst hgg
+  have hes' : s.h.ents = (pre ++ [e]) ++ y :: post := by rw [u.hes]; simp
+  obtain ⟨f, post', hp, hfa, hgf', _⟩ := next_entry w.struct hes' u.hg u.gy (isTrailerEnd_free w.shape hxtm hxtf)
+  have hfm : f ∈ s.h.ents := by rw [hes', hp]; simp
+  have hff : f = ft := entsOk_addr_inj w.ents hfm hftm (by rw [hfa, hfta, hxta, hxts])
+  subst hff
+  have := w.topsize_ne u.hg
+  exact ⟨f, post', rest, hp, hsegs, hxtf, hxts, hfta, hftc, hftp, hfts, hgf, hgb, hge, ht0, by omega⟩
+
+/-- the header after a user chunk is a free chunk other than `top`: then an in-use header follows -/
+theorem ra_next_free {s : St} (w : WFS s) {p z : Nat} {pre post : List Ent} {e y : Ent} {g : Seg}
+    (u : ra_UserAt s p z pre post e y g) (hf : isFree y = true) (hnt : y.addr ≠ s.h.top) :
+    ∃ c post', post = c :: post' ∧ c.addr = y.addr + y.size ∧ inSeg g c = true ∧ c.cin = true ∧ c.pin = false ∧
+      c.pfoot = y.size := by
+  have hes' : s.h.ents = (pre ++ [e]) ++ y :: post := by rw [u.hes]; simp
+  obtain ⟨c, post', hp, hca, hgc, hl⟩ := next_entry w.struct hes' u.hg u.gy (isTrailerEnd_free w.shape u.mem_y hf)
+  obtain ⟨l1, l2, l3⟩ := linkOk_free hl hf hnt
+  exact ⟨c, post', hp, hca, hgc, l1, l2, l3⟩
+
+/-- `ResizeAtTab` for a window replacement -/
+theorem ra_resizeAtTab_window {pre mid mid' post : List Ent} {p sz : Nat}
+    (hok' : entsOk (pre ++ mid' ++ post) = true)
+    (hcin : ∀ x ∈ mid', x.cin = true → x.addr = p ∨ ∃ x0 ∈ mid, x0.cin = true ∧ x0.addr = x.addr)
+    (hhere : ∃ e' ∈ mid', e'.addr = p ∧ e'.cin = true ∧ e'.size = sz)
+    (hkept : ∀ x ∈ mid, x.cin = true → x.addr ≠ p → ∃ x' ∈ mid', x'.addr = x.addr ∧ x'.size = x.size ∧ x'.cin = true) :
+    ResizeAtTab (pre ++ mid ++ post) (pre ++ mid' ++ post) p sz := by
+  refine ⟨?_, ?_, ?_⟩
+  · intro a ha
+    obtain ⟨x, hx, hc, hxa⟩ := mem_cinSet.1 ha
+    by_cases hm : x ∈ mid'
+    · rcases hcin x hm hc with h | ⟨x0, hx0, hc0, ha0⟩
+      · exact Or.inl (by omega)
+      · exact Or.inr (mem_cinSet.2 ⟨x0, by simp [hx0], hc0, by omega⟩)
+    · exact Or.inr (mem_cinSet.2 ⟨x, ra_mem_outer hx hm, hc, hxa⟩)
+  · obtain ⟨e', he', h1, h2, h3⟩ := hhere
+    exact ⟨e', h1 ▸ entsOk_find e' (by simp [he']) hok', h2, h3⟩
+  · intro x hx hc hne
+    by_cases hm : x ∈ mid
+    · obtain ⟨x', hx', h1, h2, h3⟩ := hkept x hm hc hne
+      exact ⟨x', h1 ▸ entsOk_find x' (by simp [hx']) hok', h2, h3⟩
+    · exact ⟨x, ra_find_outer hok' hx hm, rfl, hc⟩
+
+/-- `Resized` with the new size named -/
+def ra_ResizedTo (s s' : St) (p sz : Nat) : Prop :=
+  ∀ a z, User s' a z ↔ ((a ≠ p ∧ User s a z) ∨ (a = p ∧ z = sz))
+
+theorem ra_ResizedTo.resized {s s' : St} {p sz nb : Nat} (h : ra_ResizedTo s s' p sz) (hle : nb ≤ sz) :
+    Resized s s' p nb := ⟨sz, hle, h⟩
+
+/-- `SInv` and the exact user delta from `WFS` of the new state and a `ResizeAtTab` -/
+theorem ra_sinv_resizeTo {s : St} (hi : SInv s) {H : Heap} (w' : WFS { s with h := H }) {p z sz : Nat}
+    (hu : User s p z) (hf : ResizeAtTab s.h.ents H.ents p sz) (hsz : sz ≠ 8) :
+    SInv { s with h := H } ∧ ra_ResizedTo s { s with h := H } p sz := by
+  obtain ⟨r1, sz', _, r2⟩ := gl_sinv_resizeAtTab hi w' hu hf (Nat.le_refl sz) hsz
+  refine ⟨r1, ?_⟩
+  obtain ⟨e', he', hc', hs'⟩ := hf.here
+  have hup : User { s with h := H } p sz :=
+    ⟨e', he', hc', hs', hsz, gl_user_not_record hu e' (findEnt_some he').2⟩
+  have : sz = sz' := by
+    rcases (r2 p sz).1 hup with ⟨h, _⟩ | ⟨_, h⟩
+    · exact absurd rfl h
+    · exact h
+  subst this
+  exact r2
+
+/-! ## E. `realloc-into-top` -/
+
+/-- the final table of `realloc-into-top`: `[e, x, f]` (user chunk, `top`, foot word) became
+`[np, nt, f]` (the grown chunk, the new `top`, the same foot word) -/
+theorem ra_into_top_core {s : St} (hi : SInv s) {p nb z : Nat} {pre post : List Ent} {e x f : Ent} {g : Seg}
+    {rest : List Seg} (u : ra_UserAt s p z pre (f :: post) e x g) (hsegs : s.segs = g :: rest)
+    (hnb16 : nb % 16 = 0) (hlt : z < nb) (hfit : nb < z + s.h.topsize) (ht : p + z = s.h.top)
+    (hxf : isFree x = true) (hxs : x.size = s.h.topsize)
+    (hfa : f.addr = s.h.top + s.h.topsize) (hfc : f.cin = false) (hfp : f.pin = false) (hgf : inSeg g f = true)
+    (hgb : g.base ≤ s.h.top) (hge : s.h.top + s.h.topsize + 80 = g.base + g.size) (ht0 : s.h.top ≠ 0)
+    {H : Heap} {np nt : Ent}
+    (hH : HeapIs H (pre ++ [np, nt, f] ++ post) s.h.sbins s.h.tbins s.h.dv s.h.dvsize (p + nb) (z + s.h.topsize - nb))
+    (np1 : np.addr = p) (np2 : np.size = nb) (np3 : np.cin = true) (np4 : np.pin = e.pin) (np5 : np.pfoot = e.pfoot)
+    (nt1 : nt.addr = p + nb) (nt2 : nt.size = z + s.h.topsize - nb) (nt3 : nt.cin = false) (nt4 : nt.pin = true) :
+    SInv { s with h := H } ∧ ra_ResizedTo s { s with h := H } p nb := by
+  have w := hi.wfs
+  have hu : User s p z := ⟨e, u.find w, u.ec, u.es, u.z8, u.er⟩
+  have hem := u.mem_e
+  have hxm := u.mem_y
+  have hea := u.ea
+  have hesz := u.es
+  have hxa := u.ya
+  have hp16 := u.p16
+  have hz16 := u.z16
+  have hes : s.h.ents = pre ++ [e, x, f] ++ post := by rw [u.hes]; simp
+  have hfm : f ∈ s.h.ents := by rw [hes]; simp
+  obtain ⟨hxc, hxp⟩ := isFree_iff.1 hxf
+  obtain ⟨hx16, hxs16, _⟩ := shapeOk_free w.shape hxm hxc
+  obtain ⟨hf16, hfs16, hfs⟩ := shapeOk_free w.shape hfm hfc
+  have hffree : isFree f = false := by simp [isFree, hfp]
+  have hefree : isFree e = false := by simp [isFree, u.ec]
+  have hst0 : StructOk (pre ++ (e :: [x, f]) ++ post) s.segs s.h.top := by
+    have := w.struct; rw [hes] at this; exact this
+  have hok := w.ents
+  rw [hes] at hok
+  obtain ⟨b1, b2⟩ := entsOk_window_bounds hok
+  simp only [endE, lastE] at b2
+  have hinside : ∀ q ∈ s.h.ents, q.addr ≠ p + nb :=
+    entsOk_no_inside w.ents hxm (a := p + nb) (by omega) (by omega)
+  have hg : g ∈ s.segs := u.hg
+  have hst : StructOk (pre ++ (np :: [nt, f]) ++ post) s.segs (p + nb) :=
+    struct_window hst0 w.segsDisjoint hg
+      (by
+        intro q hq
+        simp only [List.mem_cons, List.not_mem_nil, or_false] at hq
+        rcases hq with rfl | rfl | rfl
+        · exact u.ge
+        · exact u.gy
+        · exact hgf)
+      (by simp only [contig, Bool.and_eq_true, decide_eq_true_eq, Bool.and_true]; omega)
+      (by simp only [endE, lastE])
+      (by
+        simp only [shapeOk, List.all_cons, List.all_nil, Bool.and_true, Bool.and_eq_true, Bool.or_eq_true,
+          decide_eq_true_eq]
+        exact ⟨Or.inr ⟨⟨by omega, by omega⟩, by omega⟩, Or.inr ⟨⟨by omega, by omega⟩, by omega⟩,
+          Or.inr ⟨⟨by omega, by omega⟩, by omega⟩⟩)
+      id
+      (by
+        intro q hq
+        rcases List.mem_append.1 hq with hq | hq
+        · have := b1 q hq
+          have := entsOk_pos w.ents q (by rw [hes]; simp [hq])
+          constructor <;> intro h <;> omega
+        · have := b2 q hq
+          constructor <;> intro h <;> omega)
+      ⟨np4, fun _ => ⟨by rw [np3, u.ec], np5⟩⟩
+      ⟨rfl, fun hf => by simp [lastE, hffree] at hf⟩
+      (by simp [tagsFrom, linkOk, isFree, np3, nt1, nt3, nt4, hfc, hfp])
+  have hok' : entsOk H.ents = true := by rw [hH.ents]; exact hst.ents
+  have hfreemid : ∀ q ∈ [e, x, f], isFree q = true → q.addr = s.h.top ∨ q.addr = s.h.dv := by
+    intro q hq hf
+    simp only [List.mem_cons, List.not_mem_nil, or_false] at hq
+    rcases hq with rfl | rfl | rfl
+    · rw [hefree] at hf; cases hf
+    · exact Or.inl (by omega)
+    · rw [hffree] at hf; cases hf
+  have hfnt : findEnt H.ents (p + nb) = some nt := by
+    rw [hH.ents, ← nt1]; exact entsOk_find nt (by simp) hst.ents
+  have hff : findEnt H.ents (s.h.top + s.h.topsize) = some f := by
+    rw [hH.ents, ← hfa]; exact entsOk_find f (by simp) hst.ents
+  have fs1 : freeSet [e, x, f] = [s.h.top] := by
+    simp [freeSet, List.filter, hxf, hffree, hefree]; omega
+  have fs2 : freeSet [np, nt, f] = [p + nb] := by
+    simp [freeSet, List.filter, isFree, np3, nt3, nt4, hfp, nt1]
+  have w' : WFS { s with h := H } := by
+    refine wfs_of_parts w (by rw [hH.ents, hH.top]; exact hst) ?_ ?_ ?_ ?_ ?_
+    · refine freeListOk_replace w hes hH.ents hok' (A := [])
+        (B := (if s.h.dv = 0 then [] else [s.h.dv]) ++ binned s.h) ?_ ?_ (by rw [fs2]; simp) ?_
+      · rw [fs1]; exact freeList_top ht0
+      · rw [fs2, freeList_top (by rw [hH.top]; omega), hH.top, hH.dv, binned_congr hH.sbins hH.tbins]
+      · intro a ha
+        rw [fs2, List.mem_singleton] at ha
+        subst ha
+        have := w.not_listed hinside
+        rw [freeList_top ht0] at this
+        exact not_mem_mid this
+    · exact (bins_window w hes hH.ents hok' hH.sbins hH.tbins hfreemid).1
+    · exact (bins_window w hes hH.ents hok' hH.sbins hH.tbins hfreemid).2
+    · refine dvOk_window w hes hH.ents hok' hH.dv hH.dvsize ?_
+      intro q hq hf
+      simp only [List.mem_cons, List.not_mem_nil, or_false] at hq
+      rcases hq with rfl | rfl | rfl
+      · rw [hefree] at hf; cases hf
+      · rw [hxa, ht]; exact fun h => w.dv_ne_top ht0 h.symm
+      · rw [hffree] at hf; cases hf
+    · have htop := w.top
+      unfold topOk at htop ⊢
+      simp only [hsegs] at htop ⊢
+      rw [hH.top, hH.topsize, hfnt, show p + nb + (z + s.h.topsize - nb) = s.h.top + s.h.topsize by omega, hff]
+      simp only [Bool.and_eq_true, decide_eq_true_eq, Bool.not_eq_true'] at htop ⊢
+      obtain ⟨⟨⟨⟨⟨⟨t1, t2⟩, t3⟩, t4⟩, t5⟩, t6⟩, t7⟩ := htop
+      rw [top_foot_size_eq] at t4 ⊢
+      refine ⟨⟨⟨⟨⟨⟨by omega, by omega⟩, by omega⟩, by omega⟩, t5⟩, ?_, nt2⟩, ⟨hfc, hfp⟩, ?_⟩
+      · simp [isFree, nt3, nt4]
+      · have : findEnt s.h.ents (s.h.top + s.h.topsize) = some f := by rw [← hfa]; exact entsOk_find f hfm w.ents
+        rw [this] at t7
+        simp only [Bool.and_eq_true, decide_eq_true_eq, Bool.not_eq_true'] at t7
+        exact t7.2
+  have hrt : ResizeAtTab s.h.ents H.ents p nb := by
+    rw [hes, hH.ents]
+    refine ra_resizeAtTab_window hst.ents ?_ ⟨np, by simp, np1, np3, np2⟩ ?_
+    · intro q hq hc
+      simp only [List.mem_cons, List.not_mem_nil, or_false] at hq
+      rcases hq with rfl | rfl | rfl
+      · exact Or.inl np1
+      · rw [nt3] at hc; cases hc
+      · rw [hfc] at hc; cases hc
+    · intro q hq hc hne
+      simp only [List.mem_cons, List.not_mem_nil, or_false] at hq
+      rcases hq with rfl | rfl | rfl
+      · exact absurd hea hne
+      · rw [hxc] at hc; cases hc
+      · rw [hfc] at hc; cases hc
+  exact ra_sinv_resizeTo hi w' hu hrt (by omega)
+
+/-- the heap operations of `realloc-into-top` -/
+theorem ra_into_top {s : St} (hi : SInv s) {p nb z : Nat} (hu : User s p z) (hnb16 : nb % 16 = 0)
+    (hlt : z < nb) (hfit : nb < z + s.h.topsize) (ht : p + z = s.h.top) {h1 h2 H : Heap}
+    (e1 : set_inuse s.h p nb = .ok h1) (e2 : writeHead h1 (p + nb) (z + s.h.topsize - nb) false true = .ok h2)
+    (hH : HeapIs H h2.ents h2.sbins h2.tbins h2.dv h2.dvsize (p + nb) (z + s.h.topsize - nb)) :
+    SInv { s with h := H } ∧ ra_ResizedTo s { s with h := H } p nb := by
+  have w := hi.wfs
+  obtain ⟨pre, post, e, x, g, u⟩ := ra_user_parts w hu
+  obtain ⟨f, post', rest, hp, hsegs, hxf, hxs, hfa, hfc, hfp, hfs, hgf, hgb, hge, ht0, hts⟩ := ra_next_top w u ht
+  subst hp
+  have hea := u.ea
+  have hxa := u.ya
+  have hok := w.ents
+  rw [u.hes] at hok
+  have hokt := hok
+  rw [show pre ++ e :: x :: f :: post' = (pre ++ [e]) ++ x :: f :: post' by simp] at hokt
+  obtain ⟨o1, o2, o3, o4, o5⟩ := entsOk_mid2 hok
+  obtain ⟨_, _, q3, q4, q5⟩ := entsOk_mid2 hokt
+  have hfe : findEnt s.h.ents p = some e := u.find w
+  -- `set_inuse p nb`: the header swallows `e` and the old `top` header; the stub at `p + nb`
+  have r1 := ra_set_inuse_w e1 (pre := pre) (ms := [e, x]) (post := f :: post') (by rw [u.hes]; simp)
+    (by intro q hq; have := o1 q hq; omega)
+    (by
+      intro q hq
+      simp only [List.mem_cons, List.not_mem_nil, or_false] at hq
+      rcases hq with rfl | rfl <;> omega)
+    (by
+      intro q hq
+      cases hq with
+      | head => omega
+      | tail _ hq => have := q5 q hq; omega)
+  rw [ra_pinAt_some hfe, pfootAt_some hfe] at r1
+  rw [ra_orPin_stub (pre := pre ++ [{ addr := p, size := nb, cin := true, pin := e.pin, pfoot := e.pfoot }])
+    (post := f :: post') (by simp)
+    (by
+      intro q hq
+      rcases List.mem_append.1 hq with hq | hq
+      · have := o1 q hq; omega
+      · simp only [List.mem_singleton] at hq; subst hq; simp only; omega)
+    (by
+      intro q hq
+      cases hq with
+      | head => omega
+      | tail _ hq => have := q5 q hq; omega)] at r1
+  subst r1
+  -- the new `top` header over the stub
+  have hfs' : findEnt (pre ++ [{ addr := p, size := nb, cin := true, pin := e.pin, pfoot := e.pfoot }] ++
+      { addr := p + nb, size := 0, cin := false, pin := true, pfoot := 0 } :: f :: post') (p + nb) =
+      some { addr := p + nb, size := 0, cin := false, pin := true, pfoot := 0 } := by
+    rw [ra_findEnt_pre (by
+      intro q hq
+      rcases List.mem_append.1 hq with hq | hq
+      · have := o1 q hq; omega
+      · simp only [List.mem_singleton] at hq; subst hq; simp only; omega)]
+    exact findEnt_head
+  have r2 := writeHead_window_ok e2
+    (pre := pre ++ [{ addr := p, size := nb, cin := true, pin := e.pin, pfoot := e.pfoot }])
+    (ms := [{ addr := p + nb, size := 0, cin := false, pin := true, pfoot := 0 }]) (post := f :: post')
+    (by simp)
+    (by
+      intro q hq
+      rcases List.mem_append.1 hq with hq | hq
+      · have := o1 q hq; omega
+      · simp only [List.mem_singleton] at hq; subst hq; simp only; omega)
+    (by intro q hq; simp only [List.mem_singleton] at hq; subst hq; simp only; omega)
+    (by
+      intro q hq
+      cases hq with
+      | head => omega
+      | tail _ hq => have := q5 q hq; omega)
+  dsimp only at r2
+  rw [pfootAt_some hfs'] at r2
+  subst r2
+  obtain ⟨i1, i2, i3, i4, i5, i6, i7⟩ := hH
+  exact ra_into_top_core hi u hsegs hnb16 hlt hfit ht hxf hxs hfa hfc hfp hgf hgb hge ht0
+    (np := { addr := p, size := nb, cin := true, pin := e.pin, pfoot := e.pfoot })
+    (nt := { addr := p + nb, size := z + s.h.topsize - nb, cin := false, pin := true, pfoot := 0 })
+    ⟨by rw [i1]; simp, i2, i3, i4, i5, i6, i7⟩ rfl rfl rfl rfl rfl rfl rfl rfl rfl
+
 end TinyVerif.Dl
